@@ -326,7 +326,7 @@ def read_templates(tsv):
         for line in open(tsv):
             parts = line.rstrip("\n").split("\t")
             if len(parts) >= 4:
-                rows.append({"harness": parts[0], "family": parts[1], "name": parts[2], "source": parts[3], "original": parts[4] if len(parts) > 4 else ""})
+                rows.append({"harness": parts[0], "family": parts[1], "name": parts[2], "source": parts[3], "original": parts[4] if len(parts) > 4 else "", "input": parts[5] if len(parts) > 5 else "the list (:a = x, :b = y)"})
     except OSError:
         pass
     return rows
@@ -338,13 +338,14 @@ def tmpl_harnesses(rows, family, prop, what):
     for r in rows:
         if r["family"] != family:
             continue
-        tier = "quick" if (quick is None or r["name"] in quick) else "thorough"
-        desc = "%s: source `%s`%s — %s" % (r["name"], r["source"], (" (variant of `%s`)" % r["original"]) if r["original"] else "", what)
+        plain = r["harness"] == "%s_%s" % (family, r["name"])  # the unit / list input variants are thorough-tier
+        tier = "quick" if ((quick is None or r["name"] in quick) and (plain or (prop in ("C17", "C10") and r["harness"].endswith("_inlist")))) else "thorough"
+        desc = "%s: source `%s`%s, input value %s — %s" % (r["name"], r["source"], (" (variant of `%s`)" % r["original"]) if r["original"] else "", r["input"], what)
         out.append(H(r["harness"], "tmpl", tier, desc, cbmc_args=FIELD_SENS, timeout=1500 if tier == "thorough" else 900, jobs_weight=1.3, shard_size=8))
     return out
 
 
-PROG_NOTE = "program = a template of /verif/templates.txt; its parse tree is the output of the real lex + parse of the current /repo tree (run natively and concretely by /verif/gen at every check); real build into the contract model BoundedData, real execute_current_instruction loop; every number literal (full i32; {-4..4, MIN, MAX, 31, 32} when the program contains * / // % ** << >>), the input value (unit / number / the list (:a = x, :b = y), symbolic choice) and all host answers (accept/decline, pushed value) are symbolic; all control-flow paths are inside the one query (cursor case split over the static control-flow graph)"
+PROG_NOTE = "program = a template of /verif/templates.txt; its parse tree is the output of the real lex + parse of the current /repo tree (run natively and concretely by /verif/gen at every check); real build into the contract model BoundedData, real execute_current_instruction loop; every number literal (full i32; {-4..4, MIN, MAX, 31, 32} when the program contains * / // % ** << >>), the input value's payloads (its kind - unit / a number / the list (:a = x, :b = y) - is concrete per harness) and all host answers (accept/decline, pushed value) are symbolic; all control-flow paths are inside the one query (cursor case split over the static control-flow graph)"
 PROG_FUNCS = ["compiler/src/build/build.rs build, handle_parse_node and every handle_*", "runtime/src/execute.rs execute_current_instruction", "runtime/src/runtime/*.rs as reached by the program", "data/src/data/number.rs SimpleNumber"]
 PROG_OUTSIDE = "programs outside the corpus; the lexer and the parser on any other input (they run concretely on the corpus only); the two shipped stores as build/run target (whole programs on them are out of CBMC's reach: DESIGN.md probe 14); float literals; text literals; more than 3 reapply iterations"
 
